@@ -38,7 +38,7 @@ EXPLANATION = (
     "the interval handed over is the one the DP selected (C03)."
 )
 # obligations added during the build phase (seeding rounds, twins, mutation analysis)
-ADDED_IN_BUILD = " Also: the point family is the CONFIGURED point penalty (scenario with point_penalty='dense'); the sparse family computes alpha = 2 scale log n and beta = 2 scale log(k p) (C15.a sparse|alpha, sparse|betas re-run); FORMAT is decided on the formatter's paths (C04.a icolumns re-run), not on the spelling of the conversion."
+ADDED_IN_BUILD = " Also: the point family is the CONFIGURED point penalty (scenario with point_penalty='dense'); the sparse family computes alpha = 2 scale log n and beta = 2 scale log(k p) (C15.a sparse|alpha, sparse|betas re-run); FORMAT is decided on the formatter's paths (C04.a icolumns re-run), not on the spelling of the conversion. DENSE-MARK: the column index of the label store is the anomaly's icolumns entry itself (a slice first .. first + k is a violation unless a test over all entries guards it); the frame is built from the label matrix. FORMAT keeps the interval-order obligation of the subset formatter."
 EXPLANATION = EXPLANATION + ADDED_IN_BUILD
 
 ASSUMPTIONS = [
@@ -277,7 +277,7 @@ def check_dense(ctx):
     def thunk(ex):
         ys = OpaqueV("y_sparse", {"kind": "frame"})
         index = Num(sym("index"), (N,), None, "index", meta={"kind": "LABEL"})
-        cols = Num(sym("columns"), (Pdim,), None, "index")
+        cols = Num(sym("columns"), (Pdim,), None, "index", meta={"kind": "LABEL"})
         ex.atom_shapes[Atom("sym", "index").key] = (N,)
         ex.atom_shapes[Atom("sym", "columns").key] = (Pdim,)
         return ex.call_function(f, [ys, index, cols], {}, None, None)
